@@ -30,10 +30,10 @@ package transport
 //@   loop 1 invariant WF(ctrlBuf)
 
 //@ func (*Telnet).Read [C15 C16]
-//@   modifies t.initialBuf
+//@   modifies t.initialBuf, lastRead
 //@   requires n >= 0
 //@   ensures #initial-buffer-once len(old(t.initialBuf)) > 0 ==> result.0 == old(t.initialBuf) && len(t.initialBuf) == 0 && result.1 == nil
-//@   ensures #no-initial len(old(t.initialBuf)) == 0 ==> t.initialBuf == old(t.initialBuf) && len(result.0) <= n
+//@   ensures #no-initial len(old(t.initialBuf)) == 0 ==> t.initialBuf == old(t.initialBuf) && result.0 == lastRead && len(result.0) <= n
 
 //@ func (*Telnet).Write [C15 C16]
 //@   modifies sock
@@ -80,3 +80,33 @@ package transport
 //@   modifies wire
 //@   ensures #passes-bytes-unmodified result == nil ==> wire == old(wire) ++ b
 //@   ensures #nothing-on-error result != nil ==> wire == old(wire)
+
+// ---- C16: the library's own transport wrappers are byte-exact ---------------------------------------------------
+// got(b, n): the first n bytes the dependency put into b
+
+//@ func (*System).Read [C16]
+//@   requires n >= 0
+//@   modifies lastRead
+//@   ensures #exactly-what-the-dependency-produced result.1 == nil ==> result.0 == lastRead && len(result.0) <= n
+//@   ensures #error-yields-nothing result.1 != nil ==> len(result.0) == 0
+//@ func (*System).Write [C16]
+//@   modifies peer
+//@   ensures #bytes-unmodified result == nil ==> peer == old(peer) ++ b
+//@   ensures #nothing-on-error result != nil ==> peer == old(peer)
+//@ func (*Standard).Read [C16]
+//@   requires n >= 0
+//@   modifies lastRead
+//@   ensures #exactly-what-the-dependency-produced result.1 == nil ==> result.0 == lastRead && len(result.0) <= n
+//@   ensures #error-yields-nothing result.1 != nil ==> len(result.0) == 0
+//@ func (*Standard).Write [C16]
+//@   modifies peer
+//@   ensures #bytes-unmodified result == nil ==> peer == old(peer) ++ b
+//@   ensures #nothing-on-error result != nil ==> peer == old(peer)
+
+//@ func (*File).Read [C16]
+//@   requires len(t.content) > 0
+//@   modifies t.content
+//@   ensures #one-byte-in-order result.1 == nil && result.0 === bytes(old(t.content)[0]) && t.content == old(t.content)[1:len(old(t.content))]
+//@ func (*File).Write [C16]
+//@   modifies t.Writes
+//@   ensures #recorded result == nil && t.Writes == old(t.Writes) ++ strs(b)
